@@ -412,6 +412,8 @@ def expected_refusal(op, pre):
         return None
     if k == 'submit':
         return 'KeyError' if op[1] not in pf else None
+    if k in ('pfsub', 'pfwd', 'pfmark', 'pftxn') and op[1] not in pf:
+        return None          # the harness indexes broker.portfolios directly: not a broker request
     if k == 'pfsub':
         return 'ValueError' if op[2] < pf[op[1]]['clock'] or op[3] < 0 else None
     if k == 'pfwd':
